@@ -710,4 +710,15 @@ def connect (outcomes : List AddrOutcome) : ConnectRes := connectLoop outcomes 0
 def connectPinned (outcomes : List AddrOutcome) : ConnectRes :=
   connectLoopWith aggregatePinned outcomes 0 []
 
+/-- how `_connect` sees the result of one `_connect_one` (`reprId` 0: a single address) -/
+def OneRes.toAddr : OneRes → AddrOutcome
+  | .sock _ u => .sock u
+  | .returned e => .exc e 0
+  | .escaped e => .escaped e
+
+/-- `create_connection(factory, host, port)` with `resolve=False` (one remote address) as far
+    as the proxy is concerned: `_connect([address])` over `_connect_one(address)` -/
+def createConnection1 (mk : Except PyExc Cfg) (attempts : List Attempt) : ConnectRes :=
+  connect [(connectOne mk attempts 0 none).toAddr]
+
 end Aiorpcx.Socks
